@@ -18,7 +18,7 @@ RULE = ("each run = a reference world plus transformed twins: identical rebuild,
         "uncontrolled and finite-rate greedy parties; non-trivial = a non-identity permutation with >=1 binding constraint "
         "(some pilot below its station maximum while demand remains); distinct = history signature + transformation set")
 PROBES = ["rebuild_pair", "registration_permuted", "constraints_permuted", "sessions_permuted", "shift_pair",
-          "hashseed_fresh_interpreter", "sorted_finite_world", "guard_band_skips", "json_clone_pair", "json_clone_permuted_pair", "second_life_pair",
+          "hashseed_fresh_interpreter", "sorted_finite_world", "guard_band_skips", "json_clone_pair", "deepcopy_pair", "json_clone_permuted_pair", "second_life_pair",
           "uninterrupted_world"]
 FAULT_DIMENSION = "reordering / hash seed / time shift as metamorphic schedule dimension (no faults injected)"
 ASSUMPTIONS = ["sorted parties are compared under permutations only when every priority key gap and feasibility margin of the "
@@ -181,6 +181,9 @@ def check(sc):
     sc2 = copy.deepcopy(sc)
     sc2["sim"]["json_clone"] = True
     pair("json_clone_pair", sc2, 0.0)
+    sc2 = copy.deepcopy(sc)
+    sc2["sim"]["deepcopy_before_run"] = True          # the simulator that runs is a copy.deepcopy of the freshly built one
+    pair("deepcopy_pair", sc2, 0.0)
     # the same inputs, but the network / event queue / EV objects / algorithm object have already served an earlier run
     sc2 = copy.deepcopy(sc)
     sc2["second_life"] = {k: r.random() < 0.7 for k in ("network", "queue", "evs", "algo")}
